@@ -605,3 +605,5 @@ def run(ck, F, tier):
     from . import c03
     from ..report import Scoped
     c03.rule_uc(Scoped(ck, 'C03.'), F)
+    # "every predicted picture is predicted from ..": with no reference there is nothing to predict from - gather rejects the picture, and otherwise reads the planes of that reference (C03's rules G and N)
+    c03.rule_g(Scoped(ck, 'C03.'), F)
